@@ -4,12 +4,15 @@
 //! records what happened as ndjson; the TLA+ trace specifications under /verif/spec judge it.
 //! One binary per family of properties lives under src/bin/ (cargo discovers them).
 
+pub mod c16;
+pub mod c17;
 pub mod container;
 pub mod datum;
 pub mod dynde;
 pub mod generate;
 pub mod jsontree;
 pub mod schemajson;
+pub mod sv;
 pub mod term;
 pub mod validate;
 
